@@ -6,7 +6,8 @@ import Driver.Util
 /-! line protocol of the dshbak engine
 
 `pdshmodel dshbak model`: one case per line `MODE REPAIRED HEXINPUT`
-  MODE n (report / -d: one block per tag) or c (-c: coalesced), REPAIRED 0|1 (D21 patch applied),
+  MODE n (report / -d: one block per tag) or c (-c: coalesced), REPAIRED = bit 0: D21 patch applied,
+  bit 1: F19-EMPTYSTEM patch applied (both probed on the real script by the check),
   HEXINPUT the bytes of stdin.  Answer: blocks separated by `;` (`.` when there is none)
   n:  HEX(tag)=HEX(line),HEX(line)...
   c:  HEX(suffix group text),...=HEX(tag),...=HEX(line),...=HEX(denoted host),...
@@ -34,12 +35,13 @@ def runModel (line : String) : String :=
     match unhx hxin with
     | none => "bad-op"
     | some input =>
-      let m := processLines (rep = "1") (readLines input)
+      let flags := rep.toNat?.getD 0
+      let m := processLines (flags % 2 = 1) (readLines input)
       if mode = "n" then
         semis ((normalBlocks (keys m) m).map fun b => hx b.1 ++ "=" ++ hxs b.2)
       else if mode = "c" then
         semis ((coalesce (keys m) m).map fun b =>
-          let gs := compressGroups b.1
+          let gs := if flags / 2 % 2 = 1 then compressGroupsFixed b.1 else compressGroups b.1
           hxs (gs.map fun g => renderHeader [g]) ++ "=" ++ hxs b.1 ++ "=" ++ hxs b.2 ++ "=" ++ hxs (hostsOf gs))
       else "bad-op"
   | _ => "bad-op"
